@@ -36,13 +36,11 @@ def register(reg):
     S0, S1 = 'slices_small[0].start', 'slices_small[1].start'
     cbox = ('(0, slices_large[0].stop - slices_large[0].start), '
             '(0, slices_large[1].stop - slices_large[1].start)')
-    pre = [f'0 <= {L0}', f'{L0} < slices_large[0].stop', 'slices_large[0].stop <= data.shape[0]',
-           f'0 <= {L1}', f'{L1} < slices_large[1].stop', 'slices_large[1].stop <= data.shape[1]',
-           f'0 <= {S0}', f'0 <= {S1}',
-           f'slices_small[0].stop - {S0} == slices_large[0].stop - {L0}',
-           f'slices_small[1].stop - {S1} == slices_large[1].stop - {L1}',
-           'slices_small[0].stop <= footprint.shape[0]',
-           'slices_small[1].stop <= footprint.shape[1]']
+    # the box itself is derived inside the block from the verified _overlap_slices contract (the
+    # positions were range-checked against the image earlier in the function)
+    pre = ['0 <= xp and xp <= data.shape[1] - 1', '0 <= yp and yp <= data.shape[0] - 1']
+    my = 'ceil(yp - footprint.shape[0] / 2)'
+    mx = 'ceil(xp - footprint.shape[1] / 2)'
     for tag, mspec, kwspec in (
             ('mask+error+peak', ('arr', 2, 'bool'),
              {'error': ('arr', 2, 'real'), 'xpeak': 'real', 'ypeak': 'real'}),
@@ -50,6 +48,12 @@ def register(reg):
             ('nomask+error', None, {'error': ('arr', 2, 'real')})):
         req = list(pre)
         ens = [
+            ('box-centred-on-this-source',
+             f'{L0} == max(0, {my}) and slices_large[0].stop == min(data.shape[0], {my} + '
+             f'footprint.shape[0]) and {L1} == max(0, {mx}) and slices_large[1].stop == '
+             f'min(data.shape[1], {mx} + footprint.shape[1])'),
+            ('footprint-window-aligned',
+             f'{S0} == max(0, -{my}) and {S1} == max(0, -{mx})'),
             ('data-cutout', 'data_cutout.shape == (slices_large[0].stop - slices_large[0].start, '
                             'slices_large[1].stop - slices_large[1].start) and '
                             f'forall(lambda j, i: data_cutout[j, i] == data[j + {L0}, i + {L1}], '
@@ -75,12 +79,14 @@ def register(reg):
                         f'centroid_kwargs["ypeak"] == func_kwargs["ypeak"] - {L0}'))
         reg.add(Contract(
             target=C + 'centroid_sources', props=['C17', 'C03'], tag='cutouts-' + tag,
-            block=('data_cutout', 'centroid_kwargs'),
-            params={'data': ('arr', 2, 'real', 'nonfinite'), 'mask': mspec,
-                    'footprint': ('arr', 2, 'bool'), 'slices_large': 'slice2',
-                    'slices_small': 'slice2', 'func_kwargs': ('dict', kwspec)},
+            block=('slices_large', 'centroid_kwargs'),
+            params={'data': ('arr', 2, 'real', 'nonfinite', 'nonempty'), 'mask': mspec,
+                    'footprint': ('arr', 2, 'bool', 'nonempty'), 'xp': 'real', 'yp': 'real',
+                    'func_kwargs': ('dict', kwspec)},
             requires=req, ensures=ens,
-            mutants=[('data[slices_large]', 'data[slices_small]'),
+            mutants=[('footprint.shape, (yp, xp))', 'footprint.shape, (xp, yp))'),
+                     ('overlap_slices(data.shape,', 'overlap_slices(footprint.shape,'),
+                     ('data[slices_large]', 'data[slices_small]'),
                      ('footprint_mask[slices_small]', 'footprint_mask[slices_large]')]
             + ([('mask[slices_large]', 'mask[slices_small]'),
                 ('np.logical_or(mask[slices_large], footprint_mask)',
@@ -102,27 +108,25 @@ def register_quadratic(reg):
     hx, hy = '(fit_boxsize[1] - 1) / 2', '(fit_boxsize[0] - 1) / 2'
     reg.add(Contract(
         target=C + 'centroid_quadratic', props=['C17'], tag='fit-box',
-        block=('xidx0', 'yidx0'),
-        params={'slc_data': 'slice2', 'fit_boxsize': ('tuple', 'pos', 'pos'), 'nx': 'pos',
-                'ny': 'pos', 'xidx': 'int', 'yidx': 'int'},
+        block=('slc_data', 'yidx0', None, 1),
+        params={'data': ('arr', 2, 'real', 'nonfinite', 'nonempty'),
+                'fit_boxsize': ('tuple', 'pos', 'pos'), 'nx': 'pos', 'ny': 'pos', 'xidx': 'int',
+                'yidx': 'int'},
         requires=[
+            'data.shape == (ny, nx)',
             'fit_boxsize[0] % 2 == 1 and fit_boxsize[1] % 2 == 1',
             'fit_boxsize[0] <= ny and fit_boxsize[1] <= nx',
-            '1 <= xidx and xidx <= nx - 2 and 1 <= yidx and yidx <= ny - 2',
-            # astropy.nddata.overlap_slices(mode='trim') for an odd size and an integer position
-            f'slc_data[1].start == max(0, xidx - {hx}) and '
-            f'slc_data[1].stop == min(nx, xidx + {hx} + 1)',
-            f'slc_data[0].start == max(0, yidx - {hy}) and '
-            f'slc_data[0].stop == min(ny, yidx + {hy} + 1)'],
+            '1 <= xidx and xidx <= nx - 2 and 1 <= yidx and yidx <= ny - 2'],
         ensures=[
             ('full-size', 'xidx1 - xidx0 == fit_boxsize[1] and yidx1 - yidx0 == fit_boxsize[0]'),
             ('inside-the-image', '0 <= xidx0 and xidx1 <= nx and 0 <= yidx0 and yidx1 <= ny'),
             ('contains-the-peak-pixel',
              'xidx0 <= xidx and xidx < xidx1 and yidx0 <= yidx and yidx < yidx1'),
         ],
-        note='assumes astropy.nddata.overlap_slices(mode="trim") = [max(0, p - h), '
-             'min(n, p + h + 1)) for size 2h + 1 at integer position p (stated as a precondition)',
-        mutants=[('xidx1 = min(nx, xidx0 + fit_boxsize[1])', 'xidx1 = min(nx, xidx0 + fit_boxsize[0])'),
+        note='the clipped window comes from the verified _overlap_slices contract (over the assumed '
+             'astropy.nddata.overlap_slices window)',
+        mutants=[("overlap_slices(data.shape, fit_boxsize, (yidx, xidx),", "overlap_slices(data.shape, fit_boxsize, (xidx, yidx),"),
+                 ('xidx1 = min(nx, xidx0 + fit_boxsize[1])', 'xidx1 = min(nx, xidx0 + fit_boxsize[0])'),
                  ('xidx0 = max(0, xidx1 - fit_boxsize[1])', 'xidx0 = max(0, xidx1 - fit_boxsize[1] + 1)'),
                  ('if yidx0 == 0:', 'if yidx0 == 1:'),
                  ('yidx0 = max(0, yidx1 - fit_boxsize[0])', 'yidx0 = max(0, yidx1 - fit_boxsize[1])')],
